@@ -9,6 +9,7 @@
 #include "common.h"
 #include "vector.h"
 #include "numeric.h"
+#include "contracts/libc.h"
 
 /* representation invariant of dvector/uivector/ivector:
  *   struct live; size in machine range; data NULL or the start of a live heap block (so it can be
@@ -63,6 +64,8 @@
                                                                                                   \
   void P##RemoveAt(T *d, size_t indx)                                                             \
   __CPROVER_requires(VC_VEC_WF(d, E) && VC_SEP(d, d->data))                                       \
+  /* ghost binding for the memmove contract: its element index is the ghost cell relative to indx */ \
+  __CPROVER_requires(indx < d->size ==> vc_k2 == vc_k - indx)                                     \
   __CPROVER_assigns(d->size; d->data != NULL: __CPROVER_object_whole(d->data))                                     \
   __CPROVER_ensures(VC_VEC_WF(d, E) && d->data == __CPROVER_old(d->data))                         \
   __CPROVER_ensures(d->size == (indx < __CPROVER_old(d->size) ? __CPROVER_old(d->size) - 1        \
